@@ -2,7 +2,7 @@
    Model: theories/Persist/Model.v (tied to /repo by translate/gen_sqltypes.py (T) and harness/c05.py (K)). *)
 From Coq Require Import ZArith List Bool.
 From PKGen Require Import PieColumns.
-From PK Require Import Persist.Model Persist.DecoratorProofs Persist.ChainProofs Persist.StoreProofs Persist.AttrProofs.
+From PK Require Import Persist.Model Persist.DecoratorProofs Persist.ChainProofs Persist.StoreProofs Persist.AttrProofs Persist.MakeProofs.
 Import ListNotations.
 Open Scope Z_scope.
 
@@ -184,3 +184,64 @@ Example state_after_sat :
   state_after 1 ex_key [HRead; HActivate 2; HRestart] = ST_PRE_ACTIVE /\ state_after 1 ex_key [HRestart; HActivate 1; HForeign] = ST_ACTIVE /\
   state_after 1 (SOpaque 2147483648 []) [HActivate 1] = ST_PRE_ACTIVE.
 Proof. repeat split. Qed.
+
+(* ---------------------------------------------------------------- objects made from templates: Create, DeriveKey, CreateKeyPair
+   The generated key material is an input; everything else comes from the template(s). *)
+Theorem created_object_comes_from_template : forall k mat l s, made_secret k mat l = Ok s ->
+  match k with
+  | KDeriveSecret => secret_class s = CSecret /\ secret_alg s = None /\ secret_len s = None
+  | _ => secret_class s = CSym /\ secret_alg s = sel_alg l /\ secret_len s = sel_len l
+  end.
+Proof. exact made_secret_shape. Qed.
+Print Assumptions created_object_comes_from_template.
+
+(* Create / DeriveKey: GetAttributes = the template's attributes + server-assigned, Get = the made object, at any later point of any
+   history (registrations, creations, reads, activations, destructions of others) and across restarts *)
+Theorem created_at_any_later_point : forall k v o n mat l st st' u h v',
+  store_ok st -> alg_attr_ok l -> names_untyped (made_attrs k l) -> mask_attr_defined (made_attrs k l) ->
+  srv_make k v o n mat l st = Ok (st', u) -> Forall (not_destroying u) h ->
+  exists s, made_secret k mat l = Ok s /\
+            get_attributes v' (run st' h) u = Ok (expected_attrs v' u n (state_after u s h) s (made_attrs k l)) /\
+            srv_get (run st' h) u = Ok s.
+Proof. exact made_at_any_later_point_l. Qed.
+Print Assumptions created_at_any_later_point.
+
+Definition ex_template : list tattr :=
+  [mkTA None (TAlg 3); mkTA None (TLen 128); mkTA None (TMask 12); mkTA (Some 0) (TName [107] NT_TEXT); mkTA (Some 0) (TGroup [103]);
+   mkTA (Some 1) (TGroup [104]); mkTA None (TSens true)].
+Example created_sat :
+  alg_attr_ok ex_template /\ names_untyped ex_template /\ exists st' u, srv_make KCreate (1, 4) [97] 5 [1; 2; 3; 4; 5; 6; 7; 8; 9; 10; 11; 12; 13; 14; 15; 16] ex_template store0 = Ok (st', u).
+Proof. split; [intro H; discriminate H|]. split; [repeat constructor|]. eexists. eexists. vm_compute. reflexivity. Qed.
+
+(* CreateKeyPair: each key reports the attributes of `resolve common own` - its own template's value of an attribute if it has one,
+   else the common template's (KMIP 4.2) - plus the server-assigned ones; both keys, any later point, across restarts *)
+Theorem key_pair_at_any_later_point : forall v o n fu mu fr mr lc lu lr st st' u1 u2 h v',
+  store_ok st -> enum_ok (Some fu) -> enum_ok (Some fr) ->
+  alg_attr_ok (resolve lc lu) -> alg_attr_ok (resolve lc lr) ->
+  names_untyped (resolve lc lu) -> names_untyped (resolve lc lr) ->
+  mask_attr_defined (resolve lc lu) -> mask_attr_defined (resolve lc lr) ->
+  srv_make_pair v o n fu mu fr mr lc lu lr st = Ok (st', (u1, u2)) ->
+  Forall (not_destroying u1) h -> Forall (not_destroying u2) h ->
+  exists su sr,
+    pair_secret CPub fu mu (resolve lc lu) = Ok su /\ pair_secret CPriv fr mr (resolve lc lr) = Ok sr /\
+    get_attributes v' (run st' h) u1 = Ok (expected_attrs v' u1 n (state_after u1 su h) su (resolve lc lu)) /\
+    get_attributes v' (run st' h) u2 = Ok (expected_attrs v' u2 n (state_after u2 sr h) sr (resolve lc lr)) /\
+    srv_get (run st' h) u1 = Ok su /\ srv_get (run st' h) u2 = Ok sr.
+Proof. exact pair_at_any_later_point_l. Qed.
+Print Assumptions key_pair_at_any_later_point.
+
+Theorem key_pair_resolution_rule : forall a common own,
+  of_attr a (resolve common own) = if has_attr a own then of_attr a own else of_attr a common.
+Proof. exact resolve_rule. Qed.
+Print Assumptions key_pair_resolution_rule.
+
+(* the shape of seeds C05L / C06K: common {Name, Group, Length 2048}, public overrides the Name, private the Group, both the Length *)
+Definition ex_common : list tattr := [mkTA (Some 0) (TName [99] NT_TEXT); mkTA (Some 0) (TGroup [102]); mkTA None (TAlg 4); mkTA None (TLen 2048); mkTA None (TMask 3)].
+Definition ex_public : list tattr := [mkTA (Some 0) (TName [112] NT_TEXT); mkTA None (TLen 1024)].
+Definition ex_private : list tattr := [mkTA (Some 0) (TGroup [113]); mkTA None (TLen 1024)].
+Example key_pair_sat :
+  sel_names (resolve ex_common ex_public) = [[112]] /\ sel_groups (resolve ex_common ex_public) = [[102]] /\
+  sel_names (resolve ex_common ex_private) = [[99]] /\ sel_groups (resolve ex_common ex_private) = [[113]] /\
+  sel_len (resolve ex_common ex_public) = Some 1024 /\ sel_len (resolve ex_common ex_private) = Some 1024 /\
+  exists st' u, srv_make_pair (1, 2) [97] 5 KFT_PKCS_1 [1] KFT_PKCS_8 [2] ex_common ex_public ex_private store0 = Ok (st', u).
+Proof. repeat split. eexists. eexists. vm_compute. reflexivity. Qed.
